@@ -244,8 +244,9 @@ def check_run(s: S.Sim, profile: str, res: CompResult, ops: list[str]) -> None:
     if kind == "standoff":
         props = ["C02"] + (["C17"] if profile == "lifecycle" else []) + (["C15"] if cfg.requeue else [])
         waiting = [(w.id, w.pc, list(w.queue), w.next) for w in s.workers if w.alive and w.pc != "done"]
-        odd = [w.id for w in s.workers if w.alive and w.pc != "done" and w.ids != f.ref and w.number >= cfg.numnodes]
-        if odd and f.lb:
+        odd = [w.id for w in s.workers if w.number >= cfg.numnodes and
+               (w.ids != f.ref if f.lb else w.number in cfg.node_ids) and (f.lb and w.alive and w.pc != "done" or not f.lb)]
+        if odd:
             fire(["C09", "C02"], f"standoff-with-disagreeing-replacement:{cfg.mode}",
                  f"stand-off: replacement {odd} collected differently and is never given tests nor shut down; the remaining tests wait forever: {waiting}")
             return
@@ -686,11 +687,36 @@ def cfg_from_json(d: dict[str, Any]) -> S.SimCfg:
     return S.SimCfg(**d)
 
 
+def compare_ctl(res: CompResult, runs: list[tuple[list[str], list[str], list[str]]]) -> None:
+    """T1 `ctl.dsession`: the Lean `DSession` model replays the events the real controller processed (in the order it
+    processed them, with the flag flips of the receiver threads in between) and must produce the same commands,
+    publications, flags and scheduler state after every loop iteration."""
+    from common import Disagreement, run_driver
+
+    lines = [l for ls, _, _ in runs for l in ls]
+    if not lines:
+        return
+    model = run_driver("ctl", lines)
+    pos = 0
+    for ls, obs, ops in runs:
+        m = model[pos: pos + len(ls)]
+        pos += len(ls)
+        bad = next((i for i in range(len(ls)) if i < len(obs) and m[i] != obs[i]), None)
+        if bad is None:
+            res.hit("ctl-trace-agrees")
+            continue
+        res.hit("ctl-trace-disagrees")
+        if len([d for d in res.disagreements if d.component == "ctl.dsession"]) < 6:
+            res.disagreements.append(Disagreement("ctl.dsession", ls[: bad + 1], m[: bad + 1], obs[: bad + 1], bad,
+                                                  note="system replay: " + ops[0][:300]))
+
+
 def run(profiles: list[str], n_runs: int, seed: int, modes: list[str] | None = None) -> CompResult:
     res = CompResult(component="system[" + ",".join(profiles) + "]")
     res.rule = ("whole-system runs of the real DSession/scheduler/WorkerController stack under random fair schedules; a run is non-trivial if "
                 ">=2 workers executed tests and >=1 controller event overtook an older event of another worker; distinct by hash of (configuration, schedule)")
     rng = random.Random(f"{seed}-system-{'-'.join(profiles)}")
+    ctl_runs: list[tuple[list[str], list[str], list[str]]] = []
     for k in range(n_runs):
         profile = profiles[k % len(profiles)]
         cfg = PROFILES[profile](rng)
@@ -715,12 +741,14 @@ def run(profiles: list[str], n_runs: int, seed: int, modes: list[str] | None = N
             res.hit("with-steal")
         ops = [json.dumps({"cfg": cfg_to_json(cfg), "profile": profile}), *s.trace]
         check_run(s, profile, res, ops)
+        ctl_runs.append((s.ctl_lines, s.ctl_obs, ops))
         busy = len({wid for _, wid in s.executions})
         if busy >= 2:
             res.distinct.add(h((cfg_to_json(cfg), s.trace)))
         res.traces_validated += 1
         if len(res.samples) < 2 and busy >= 2:
             res.samples.append({"cfg": cfg_to_json(cfg), "schedule_head": s.trace[:30], "outcome": s.outcome})
+    compare_ctl(res, ctl_runs)
     return res
 
 
